@@ -21,6 +21,7 @@ import (
 	"net/http/httptest"
 	"os"
 	"runtime"
+	"sort"
 	"strings"
 	"sync"
 	"sync/atomic"
@@ -153,6 +154,7 @@ type c15Round struct {
 	Procs     int    `json:"gomaxprocs"`
 	KeepAlive string `json:"keep_alive"`
 	Models    int    `json:"models"`
+	Mode      string `json:"mode,omitempty"` // "": C15 round; "c02api": C02's API part (more impatient clients, drain oracle, no race detector)
 }
 
 func c15GGUF(i int) []byte {
@@ -298,28 +300,33 @@ func c15RunRound(t *testing.T, r *kit.Rand, rd c15Round, rep *kit.Report, pw *c1
 		cr := kit.NewRand(r.Uint64(), "client", c)
 		go func(c int) {
 			defer wg.Done()
+			// an impatient client: it leaves 0.3-3 ms after sending, typically while the model is loading
+			abandon := func(name string) {
+				actx, acancel := context.WithTimeout(context.Background(), time.Duration(300+cr.Intn(2700))*time.Microsecond)
+				b, _ := json.Marshal(map[string]any{"model": name, "prompt": "hi there", "stream": true, "keep_alive": "5ms"})
+				req, _ := http.NewRequestWithContext(actx, "POST", ts.URL+"/api/generate", bytes.NewReader(b))
+				if resp, e := hc.Do(req); e == nil {
+					io.Copy(io.Discard, resp.Body)
+					resp.Body.Close()
+				}
+				acancel()
+				ops.Add(1)
+				rep.Count("requests_generate-abandoned", 1)
+			}
 			for i := 0; i < rd.OpsEach; i++ {
 				name := kit.Pick(cr, names)
 				var st int
 				var body []byte
 				var err error
+				if rd.Mode == "c02api" && cr.Intn(100) < 12 {
+					abandon(name)
+					continue
+				}
 				k := cr.Intn(100)
 				kind := ""
 				switch {
 				case k < 4:
-					// an impatient client: it leaves 0.3-3 ms after sending, typically while the model is loading
-					kind = "generate-abandoned"
-					actx, acancel := context.WithTimeout(context.Background(), time.Duration(300+cr.Intn(2700))*time.Microsecond)
-					b, _ := json.Marshal(map[string]any{"model": name, "prompt": "hi there", "stream": true, "keep_alive": "5ms"})
-					req, _ := http.NewRequestWithContext(actx, "POST", ts.URL+"/api/generate", bytes.NewReader(b))
-					if resp, e := hc.Do(req); e == nil {
-						body, _ = io.ReadAll(resp.Body)
-						resp.Body.Close()
-						st = resp.StatusCode
-					}
-					acancel()
-					ops.Add(1)
-					rep.Count("requests_"+kind, 1)
+					abandon(name)
 					continue
 				case k < 22:
 					kind = "generate"
@@ -388,21 +395,86 @@ func c15RunRound(t *testing.T, r *kit.Rand, rd c15Round, rep *kit.Report, pw *c1
 	}
 	done := make(chan struct{})
 	go func() { wg.Wait(); close(done) }()
+	watchdog := 120 * time.Second
+	if rd.Mode == "c02api" {
+		watchdog = 30 * time.Second
+	}
 	select {
 	case <-done:
-	case <-time.After(120 * time.Second):
+	case <-time.After(watchdog):
 		// decided below from the goroutine dump: are clients parked on server locks?
-		var locks []string
+		var locks, sends []string
 		for _, g := range kit.Goroutines() {
 			if g.State == "sync.Mutex.Lock" && g.Has("github.com/ollama/ollama/server.") {
 				locks = append(locks, g.Top("github.com/ollama/ollama/server."))
 			}
+			if g.State == "chan send" && g.Has("github.com/ollama/ollama/server.(*Scheduler).") {
+				sends = append(sends, g.Top("github.com/ollama/ollama/server."))
+			}
+		}
+		if rd.Mode == "c02api" {
+			if len(locks)+len(sends) > 0 {
+				sort.Strings(locks)
+				sort.Strings(sends)
+				vs = append(vs, c15Viol{"c02:api:scheduler-wedged", fmt.Sprintf("requests whose clients are still waiting got no reply; scheduler goroutines blocked in a channel send: %v; goroutines parked on server mutexes: %v", sends, locks)})
+				return vs, ""
+			}
+			return vs, "clients did not finish within 30 s and nothing is parked on a server mutex or scheduler channel"
 		}
 		if len(locks) > 0 {
 			vs = append(vs, c15Viol{"c15:deadlock", fmt.Sprintf("requests did not finish; goroutines parked on server mutexes: %v", locks)})
 			return vs, ""
 		}
 		return vs, "clients did not finish within 120 s and nothing is parked on a server mutex"
+	}
+	if rd.Mode == "c02api" {
+		// drain: keep-alives are at most 20 ms here, so once every client is done the runners must go away:
+		// /api/ps empty and every started mock closed. Decided at quiescence (scheduler loops parked in their
+		// selects, nothing of the package runnable); the 10 s bound alone only yields inconclusive.
+		drained := func() (bool, string) {
+			st, body, err := c15Do(hc, "GET", ts.URL+"/api/ps", nil)
+			var pr api.ProcessResponse
+			if err != nil || st != 200 || json.Unmarshal(body, &pr) != nil {
+				return false, fmt.Sprintf("/api/ps: %v %d", err, st)
+			}
+			mockMu.Lock()
+			defer mockMu.Unlock()
+			open := 0
+			for _, m := range mocks {
+				if m.closed.Load() == 0 {
+					open++
+				}
+			}
+			return len(pr.Models) == 0 && open == 0, fmt.Sprintf("/api/ps lists %d model(s), %d of %d started runners were never closed", len(pr.Models), open, len(mocks))
+		}
+		ok, what := false, ""
+		for i := 0; i < 400 && !ok; i++ {
+			if ok, what = drained(); !ok {
+				time.Sleep(25 * time.Millisecond)
+			}
+		}
+		rep.Count("api_rounds_drain_checked", 1)
+		if !ok {
+			busy := []string{}
+			for _, g := range kit.Goroutines() {
+				if !g.Has("github.com/ollama/ollama/server.(*Scheduler).") && !g.Has("github.com/ollama/ollama/server.(*runnerRef).") {
+					continue
+				}
+				if g.State != "select" && g.State != "chan receive" {
+					busy = append(busy, g.State+" "+g.Top("github.com/ollama/ollama/server."))
+				}
+			}
+			if len(busy) == 0 {
+				vs = append(vs, c15Viol{"c02:api:not-drained", "all clients are done and every keep-alive (<= 20 ms) has long elapsed, the scheduler is idle, but " + what})
+			} else {
+				return vs, "not drained after 10 s but scheduler goroutines are still active: " + strings.Join(busy, "; ")
+			}
+		}
+		rep.Count("requests", int(ops.Load()))
+		mockMu.Lock()
+		rep.Count("runners_started", len(mocks))
+		mockMu.Unlock()
+		return vs, ""
 	}
 	rep.Count("requests", int(ops.Load()))
 	// recovered panics
